@@ -58,9 +58,15 @@ Hooks == {"liqV2.sweepVault", "liqV2.sweepBorrow", "liqV2.surplus", "liqV2.debt"
           "aucV1.surplus", "aucV1.debt", "liqV2.msgInternalVault", "liqV2.msgInternalBorrow", "liqV1.msgVault", "liqV1.msgBorrow",
           "app.blockHarbor", "app.blockCommodo"}     \* the application's whole begin/end-block pipeline with every trigger armed
 HookApp(h) == IF h \in {"liqV2.sweepBorrow", "liqV2.msgInternalBorrow", "liqV1.sweepBorrow", "liqV1.msgBorrow", "app.blockCommodo"} THEN "commodo" ELSE "harbor"
-(* under a breaker the hook must neither seize a position nor start an auction for the app *)
-HookMustIdle(h, c) == c.breaker
+(* hooks that value the position with the collateral's oracle price before they seize it *)
+HookNeedsPrice(h) == h \in {"liqV2.sweepVault", "liqV2.sweepBorrow", "liqV1.sweepVault", "liqV1.sweepBorrow",
+                            "liqV2.msgInternalVault", "liqV2.msgInternalBorrow", "liqV1.msgVault", "liqV1.msgBorrow"}
+(* under a breaker the hook must neither seize a position nor start an auction for the app; nor may it seize anything
+   when the oracle price it has to value the collateral with is missing or inactive *)
+HookBreakerReq(h, c) == c.breaker
+HookPriceReq(h, c)   == c.esm = "off" /\ HookNeedsPrice(h) /\ c.off # {}
+HookMustIdle(h, c)   == HookBreakerReq(h, c) \/ HookPriceReq(h, c)
 (* as coded: the sweeps also idle once shutdown is executed, except the V2 borrow sweep and the V2 surplus/debt starter *)
-ImplHookIdle(h, c) == c.breaker \/ (c.esm # "off" /\ h \in {"liqV2.sweepVault", "liqV1.sweepVault", "aucV1.surplus", "aucV1.debt",
+ImplHookIdle(h, c) == c.breaker \/ (HookNeedsPrice(h) /\ c.off # {}) \/ (c.esm # "off" /\ h \in {"liqV2.sweepVault", "liqV1.sweepVault", "aucV1.surplus", "aucV1.debt",
                                                              "liqV2.msgInternalVault", "liqV1.msgVault"})
 =============================================================================
